@@ -9,7 +9,8 @@ EXTENDS Naturals, Sequences, FiniteSets, TLC, Json
 CONSTANTS Lang, MaxLen, Mode      \* Lang: "path" | "pointer" | "relptr"; Mode: "soup" | "mutants"
 
 \* TLC keeps strings as bytes when it spills states to disk, so lexemes outside ASCII are given by name
-\* ("EACUTE", "SUPER2") and spelled out by the recorder
+\* ("EACUTE", "SUPER2") and spelled out by the recorder; "HUGE" stands for a run of 4400 nines (more digits
+\* than the host's integer conversion accepts), which no specification string could usefully carry
 VARIABLES s, done
 vars == <<s, done>>
 
@@ -17,15 +18,15 @@ L(str) == str
 PathLex == << "$", "@", ".", "..", "[", "]", "(", ")", "?", "*", ",", ":", "'a'", "\"b\"", "'", "\"", "a", "1", "-1", "01", "1e2", "1.5", "1e-1",
               "9007199254740993", "-", "+", "==", "!=", "<", "<>", "&&", "||", "!", " in ", " contains ", "=~", "/a/", "/(/", "/a", "/a/i", "true", "null",
               "length(", "count(", "match(", "value(", "nosuch(", "#", "_", "~", "^", " | ", " & ", "undefined", " ", "\\", "'\\u00e9'", "'\\ud800'", "EACUTE", "0", "and", "not ",
-              "1e400", "1.0e16", "1.5e1", "/a{99999999999999999999}/", "'a{99999999999999999999}'", "aaaaaaaaaaaaaaaaaaaaaaaaaaaaaaaaaaaaaaaa" >>
-PtrLex == << "/", "~", "0", "1", "a", "-", "#", "\\u0041", "\\", "\\ud800", " ", "EACUTE", "%41", "~0", "~1", "~2", "-1", "01", "9007199254740993", "\\x", "SUPER2" >>
-RelLex == << "0", "1", "2", "10", "+", "-", "#", "/", "a", "~", "01", " ", "\\", "+0", "EACUTE" >>
+              "1e400", "1.0e16", "1.5e1", "/a{99999999999999999999}/", "'a{99999999999999999999}'", "aaaaaaaaaaaaaaaaaaaaaaaaaaaaaaaaaaaaaaaa", "HUGE" >>
+PtrLex == << "/", "~", "0", "1", "a", "-", "#", "\\u0041", "\\", "\\ud800", " ", "EACUTE", "%41", "~0", "~1", "~2", "-1", "01", "9007199254740993", "\\x", "SUPER2", "HUGE" >>
+RelLex == << "0", "1", "2", "10", "+", "-", "#", "/", "a", "~", "01", " ", "\\", "+0", "EACUTE", "HUGE" >>
 Lex == CASE Lang = "path" -> PathLex [] Lang = "pointer" -> PtrLex [] Lang = "relptr" -> RelLex [] OTHER -> <<>>
 
 \* patch documents: operation records whose members are given as codes the recorder decodes
-\*   "s:<text>" a string, "n:1" the number 1, "l:" an empty array, "null", "absent" (member omitted)
+\*   "s:<text>" a string, "n:1" the number 1, "l:" an empty array, "null", "absent" (member omitted), "h:<text>" the text followed by 4400 nines
 OpV == {"s:add", "s:remove", "s:replace", "s:move", "s:copy", "s:test", "s:addne", "s:addap", "s:frob", "n:1", "null", "absent"}
-PathV == {"s:/a", "s:", "s:/a/-", "s:/a/0", "s:a", "n:1", "absent", "s:/a/~2", "s:/b/c", "null", "s:/a/9", "s:/", "s:/a/#0", "s:/a/#"}
+PathV == {"s:/a", "s:", "s:/a/-", "s:/a/0", "s:a", "n:1", "absent", "s:/a/~2", "s:/b/c", "null", "s:/a/9", "s:/", "s:/a/#0", "s:/a/#", "h:/a/#", "h:/a/"}
 FromV == {"absent", "s:/a", "s:/z", "n:1", "s:x", "s:/a/0"}
 ValV == {"absent", "n:1", "l:", "s:{x"}
 PatchOps == [op : OpV, path : PathV, from : FromV, value : ValV]
